@@ -675,7 +675,9 @@ impl<'a> ByteReader for SliceReader<'a> {
     }
 
     fn check_eor(&self, num_bytes: usize) -> Result<(), DeserializationError> {
-        if self.pos + num_bytes > self.source.len() {
+        // `pos` never exceeds the length of the source; comparing against the number of remaining
+        // bytes cannot overflow, unlike `pos + num_bytes`
+        if num_bytes > self.source.len() - self.pos {
             return Err(DeserializationError::UnexpectedEOF);
         }
         Ok(())
